@@ -2,6 +2,7 @@ import CedarVerif.Lemmas.SyntaxSound
 import CedarVerif.Lemmas.SyntaxSplitOn
 import CedarVerif.Lemmas.SyntaxPolicy
 import CedarVerif.Lemmas.SyntaxPolicySound
+import CedarVerif.Lemmas.SyntaxLex
 import CedarVerif.Cedar.Eval
 /-
 C05 — policy text → AST → text round trip.  Property theorems (every `theorem` here is an obligation).
@@ -664,5 +665,29 @@ example : printPolicy (fun _ => false) samplePolicy =
   simp [printPolicy, samplePolicy, printAnnots, printScope, printAction, printCond, printE, refExpr, nameTokens, splitOn_NsUser,
     effectName, slotName, varName, paren, needsParens, isAnd, keyTok, strTok, isNormalizedIdent]
   decide
+
+/-! ### the lexer -/
+
+/-- **Lexing a printed token list gives the token list back**: for every list of lexer-producible tokens (`TokOK`:
+`IDENTIFIER` tokens are identifier-shaped `[_a-zA-Z][_a-zA-Z0-9]*`, string tokens hold text of the form `(\\.|[^"\\])*` — e.g.
+anything `escape_debug` prints —, slot tokens are `?` + identifier; numbers and punctuation unrestricted), the model lexer
+(`Cedar/Syntax/Lex.lean`, mirror of the `match { … }` block of grammar.lalrpop) maps the text `render ts` (tokens separated
+by single spaces) to `ts`.  Full alphabet of `Token`. -/
+theorem lex_print (ts : List Token) (h : ∀ t ∈ ts, TokOK t = true) : lex (render ts) = some ts :=
+  lexFuel_render ts h _ (Nat.lt_succ_self _)
+
+-- non-vacuity: the sample template's tokens (annotation with an escaped quote, slots, `::`, `==`, `&&`-free two-clause text)
+example : lex (render samplePolicyTokens) = some samplePolicyTokens := lex_print _ (by decide +kernel)
+-- what the lexer does with comments, odd spacing, maximal munch, leading zeros, keywords, escapes
+example : lex "permit(principal,action,resource)when{007<=x1&&!(a!=b)||\"q\\\"\"like\"*\"};// done".toList =
+    some [.ident "permit", .lparen, .ident "principal", .comma, .ident "action", .comma, .ident "resource", .rparen, .ident "when", .lbrace,
+      .num 7, .le, .ident "x1", .andand, .bang, .lparen, .ident "a", .neq, .ident "b", .rparen, .oror, .str ['q', '\\', '"'],
+      .ident "like", .str ['*'], .rbrace, .semi] := by decide +kernel
+example : lex "a // c\n\t/ b::c ?principal == = ".toList =
+    some [.ident "a", .slash, .ident "b", .dcolon, .ident "c", .slot "?principal", .eqeq, .eq] := by decide +kernel
+example : lex "\"a\\\nb\"".toList = none := by decide +kernel   -- backslash-newline inside a string token
+example : lex "a & b".toList = none := by decide +kernel
+example : lex "\"abc".toList = none := by decide +kernel
+example : lex "? x".toList = none := by decide +kernel
 
 end Cedar.C05
